@@ -7,6 +7,7 @@ mod lexparse;
 mod pipeline;
 mod resolve;
 mod topo_replay;
+mod tyrel;
 
 use std::path::PathBuf;
 
@@ -44,6 +45,7 @@ fn main() {
             println!("{:?}", p.errors().len());
         }
         "resolve" => resolve::main(&args[2..]),
+        "tyrel" => tyrel::main(&args[2..]),
         "topo-replay" => topo_replay::main(&args[2..]),
         other => {
             eprintln!("unknown subcommand {}", other);
